@@ -97,10 +97,7 @@ class Gen:
                     out.append(pad + "start %s(x=%d) as $r%d" % (a, self.r.randint(1, 2), self.nvar))
                     if self.has("refs") and self.r.random() < 0.6:
                         out.append(pad + "match $r%d.Finished()" % self.nvar)
-                    elif self.has("refs") and self.r.random() < 0.5:
-                        # the flow stops its action itself, after a wait
-                        out.append(pad + "match " + self.ev())
-                        out.append(pad + "send $r%d.Stop()" % self.nvar)
+
                 else:
                     out.append(pad + "start %s(x=1)" % a)
             elif k < 0.58 and avail:
